@@ -608,11 +608,20 @@ func (c *Compiler) applyUsesToNode(mod, nod, use parse.Node, parentStatus schema
 		status = parseStatus(st)
 	}
 	for _, a := range use.ChildrenByType(parse.NodeAugment) {
-
+		if _, ok := a.Argument().(*parse.DescendantSchemaArg); !ok {
+			c.error(a,
+				fmt.Errorf("invalid argument %s expected descendant schema id",
+					a.Argument().String()))
+		}
 		applyToPath := a.ArgDescendantSchema()
 		c.applyAugment(a, refinedNodes, applyToPath, status)
 	}
 	for _, a := range use.ChildrenByType(parse.NodeOpdAugment) {
+		if _, ok := a.Argument().(*parse.DescendantSchemaArg); !ok {
+			c.error(a,
+				fmt.Errorf("invalid argument %s expected descendant schema id",
+					a.Argument().String()))
+		}
 		applyToPath := a.ArgDescendantSchema()
 		c.applyAugment(a, refinedNodes, applyToPath, status)
 	}
